@@ -348,8 +348,13 @@ class C17(Engine):
             return "hang:%s:not-stopped-by-repeated-sigint" % (cmd or "blank-line")
         # only the output of the command that was executing counts
         start = text.rfind("\nstopped> ") if plan["mode"] == "interactive" else 0
-        addrs = [int(a, 16) for a in self.ADDR_LINE.findall(text[max(start, 0):])]
+        out = text[max(start, 0):]
+        addrs = [int(a, 16) for a in self.ADDR_LINE.findall(out)]
+        if len(addrs) < 200:
+            # some listings (sweet16) do not end their lines: take every "0x<addr>:" label instead
+            addrs = [int(a, 16) for a in re.findall(r"0x([0-9a-fA-F]+):", out)]
         descents = sum(1 for i in range(1, len(addrs)) if addrs[i] < addrs[i - 1])
+        # (an address may repeat: several listings print one line per byte of a multi-byte unit)
         if len(addrs) >= 200 and len(set(addrs)) >= 50 and descents <= 2:
             # addresses never go back (one wrap at 2^32 allowed): the listing advances through a huge range
             res.probe("long_listing_not_judged")
